@@ -124,9 +124,12 @@ def _sz_worker(job_file, out_file):
             for e in files[1:-1]:
                 e["data"] = rng.randbytes(200)
             files[-1]["data"] = head + rng.randbytes(40)
+        declared = c.get("declared")        # dictionary size DECLARED in the coder properties (data stays small)
+        if declared:
+            coders = [declared["coder"]] * len(folders)
         gap = 0 if a["packPos"] == 0 else rng.randint(1, 60)
         data, info = z.write_7z(entries, folders, coders=coders, encode_header=rng.random() < 0.4, gap=gap,
-                                dict_size=dict_size,
+                                dict_size=dict_size, declared_dict=declared["dict"] if declared else None,
                                 always_nums=rng.random() < 0.3, attrs=rng.random() < 0.7, mtime=rng.random() < 0.3)
         z.self_check(data, entries)
         unpacked = [b"".join(entries[i]["data"] for i in f) for f in folders]
@@ -235,6 +238,17 @@ def _sz_part(ctx):
                               "arch": {"kinds": kinds, "usize": [1 if k == "file" else 0 for k in kinds], "fold": fold,
                                        "coder": ["lz"], "psize": [1], "packPos": rng.choice([0, 2])}})
                 n_ld += 1
+    # large DECLARED dictionaries (what "ultra" presets write), tiny members: LZMA 1 MiB .. 256 MiB, LZMA2 property
+    # bytes 13 .. 32 and 40 (= 4 GiB - 1)
+    for coder, dicts in (("lzma", [1 << 20, 16 << 20, 64 << 20, 128 << 20, 256 << 20]),
+                         ("lzma2", [(2 | (p & 1)) << (p // 2 + 11) for p in (13, 19, 24, 27, 30, 31, 32)] + [0xFFFFFFFF])):
+        for d in dicts:
+            for kinds, fold in ((["file", "file"], [[1, 2]]), (["file", "dir", "file"], [[1], [3]])):
+                cases.append({"id": f"D{n_ld}", "n": 200000 + n_ld, "seed": rng.randrange(1 << 30),
+                              "declared": {"coder": coder, "dict": d},
+                              "arch": {"kinds": kinds, "usize": [1 if k == "file" else 0 for k in kinds], "fold": fold,
+                                       "coder": ["lz"] * len(fold), "psize": [1] * len(fold), "packPos": 0}})
+                n_ld += 1
     nw = 8
     procs = []
     for w in range(nw):
@@ -332,6 +346,8 @@ def _member_part(ctx):
     ncs = ["plain", "plain", "nested", "unicode", "dotslash", "dotslash"]
     for n, c in enumerate(cases, start=1):
         for m in c["members"]:
+            if m["nc"] == "dup":
+                continue                            # keeps the name of the member before it
             if m["kind"] in ("doc", "emptyFile", "corrupt", "dir", "nested", "unsup"):
                 m["nc"] = rng.choice(ncs)          # benign name classes only: the oracle is the same for all of them
             elif m["kind"] == "hidden":
